@@ -4,6 +4,7 @@
   What is *proved* here concerns the modelled hazards; the parser, the regexps, the heuristic
   filters and the pagination arithmetic are covered by the differential fuzz only (DESIGN §6 C01).
 -/
+import Distill.Props.LinkScoreProps
 import Distill.Props.RenderProps
 import Distill.Proofs.Root
 import Distill.Proofs.Total
